@@ -55,11 +55,17 @@ def process_signature(app, what, name, obj, options,
     if isinstance(parent, type) and callable(obj):
         obj = _util.safe_get(obj, object(), type(parent))
     try:
-        sig = specifiers.signature(obj).evaluated()
+        sig = specifiers.signature(obj)
     except (TypeError, ValueError):
         # inspect.signature raises ValueError if obj is callable but it can't
         # determine a signature, eg. built-in objects
         return sig, return_annotation
+    try:
+        sig = sig.evaluated()
+    except Exception:
+        # annotations that cannot be evaluated (e.g. names imported under
+        # TYPE_CHECKING only) are shown as written
+        pass
     ret_annot = sig.return_annotation
     if ret_annot != sig.empty:
         sret_annot = '{0!r}'.format(ret_annot)
